@@ -29,9 +29,13 @@ pub enum KindId {
     OVec24,
     OArray24,
     Iter24,
+    /// range with bounds taken from the C16 grid: the `len` of a unit encodes (start index, end index)
+    RangeX,
 }
 
-pub const ALL_KINDS: [KindId; 22] = [
+pub const GRID: [usize; 9] = [0, 1, 7, usize::MAX / 2 - 1, usize::MAX / 2, usize::MAX / 2 + 1, usize::MAX - 2, usize::MAX - 1, usize::MAX];
+
+pub const ALL_KINDS: [KindId; 23] = [
     KindId::Slice,
     KindId::VecRef,
     KindId::ArrayRef,
@@ -54,6 +58,7 @@ pub const ALL_KINDS: [KindId; 22] = [
     KindId::OVec24,
     KindId::OArray24,
     KindId::Iter24,
+    KindId::RangeX,
 ];
 
 impl KindId {
@@ -82,6 +87,7 @@ impl KindId {
             OVec24 => "vec24",
             OArray24 => "array24",
             Iter24 => "iter24",
+            RangeX => "range_grid",
         };
         KindInfo {
             name,
@@ -91,9 +97,11 @@ impl KindId {
             clones: matches!(self, ClonedSlice | ClonedVecRef | ClonedArrayRef | ClonedIter),
             adaptor: matches!(self, ClonedSlice | CopiedSlice | ClonedVecRef | ClonedArrayRef | ClonedIter | CopiedIter),
             nonfused: matches!(self, IterNonFused),
+            wrapper: matches!(self, IterExact | IterInexact | IterUnk | IterNonFused | IterRef | ClonedIter | CopiedIter | Iter24),
             keymap: match self {
                 Range0 => KeyMap::Range(0),
                 Range5 | RangeInto => KeyMap::Range(5),
+                RangeX => KeyMap::Range(0),
                 _ => KeyMap::Elem,
             },
         }
@@ -242,8 +250,95 @@ where
 }
 
 /// Execute one history on a fresh source of the given kind. Panics propagate.
-pub fn exec_one(kind: KindId, env: &mut Env, hist: &[SOp], term: Term) {
+#[derive(Clone, Copy, Debug, PartialEq, Eq)]
+pub enum Mode {
+    Normal,
+    /// low-level safe API sequences, ownership ledger only (C14)
+    LowLevel,
+    /// several live iterators over one collection (C19)
+    Multi,
+}
+
+fn exec_special(kind: KindId, mode: Mode, env: &mut Env, hist: &[SOp], term: Term) {
+    use crate::special::*;
     use KindId::*;
+    let len = env.len;
+    ledger_reset();
+    alloc::reset();
+    env.reset();
+    match (mode, kind) {
+        (Mode::LowLevel, OVec) => {
+            let src: std::vec::Vec<Elem<0>> = mk(len);
+            let it = subj(|| src.into_con_iter());
+            run_lowlevel(env, it, hist, term);
+        }
+        (Mode::LowLevel, OArray) => with_array!(len, 0, a => {
+            let it = subj(|| IntoConcurrentIter::into_con_iter(a));
+            run_lowlevel(env, it, hist, term);
+        }),
+        (Mode::Multi, Slice) | (Mode::Multi, VecRef) => {
+            let src: std::vec::Vec<Elem<0>> = mk(len);
+            env.src_base = src.as_ptr() as usize;
+            env.stride = std::mem::size_of::<Elem<0>>();
+            if kind == Slice {
+                run_multi(env, &|| src.as_slice().into_con_iter(), hist, term);
+            } else {
+                run_multi(env, &|| src.con_iter(), hist, term);
+            }
+            end_checks(env, true);
+            if env.ok() {
+                for (i, e) in src.iter().enumerate() {
+                    let s = e.seen();
+                    if !s.valid || s.key != key_of(i) {
+                        env.fail(T_SRC, "source-modified", format!("element {i} of the collection changed"));
+                        break;
+                    }
+                }
+            }
+            subj(|| drop(src));
+            post_source(env);
+        }
+        (Mode::Multi, ArrayRef) => with_array!(len, 0, a => {
+            {
+                let sl: &[Elem<0>] = &a;
+                env.src_base = sl.as_ptr() as usize;
+                env.stride = std::mem::size_of::<Elem<0>>();
+            }
+            run_multi(env, &|| a.con_iter(), hist, term);
+            end_checks(env, true);
+            subj(|| drop(a));
+            post_source(env);
+        }),
+        (Mode::Multi, Range5) => {
+            let r = 5..5 + len;
+            run_multi(env, &|| r.con_iter(), hist, term);
+            if env.ok() && r != (5..5 + len) {
+                env.fail(T_SRC, "source-modified", "the range changed".into());
+            }
+        }
+        _ => panic!("kind {:?} is not part of mode {:?}", kind, mode),
+    }
+    alloc_check(env);
+}
+
+pub fn exec_one(kind: KindId, mode: Mode, env: &mut Env, hist: &[SOp], term: Term) {
+    use KindId::*;
+    if mode != Mode::Normal {
+        return exec_special(kind, mode, env, hist, term);
+    }
+    if kind == RangeX {
+        // decode the grid cell; the model length is the mathematical length of the range
+        let code = env.code;
+        let (a, b) = (GRID[(code / 16) % 9], GRID[(code % 16) % 9]);
+        env.len = b.saturating_sub(a);
+        env.ki.keymap = KeyMap::Range(a);
+        ledger_reset();
+        alloc::reset();
+        env.reset();
+        run_ref(env, (a..b).con_iter(), hist, term);
+        alloc_check(env);
+        return;
+    }
     let len = env.len;
     ledger_reset();
     alloc::reset();
@@ -338,6 +433,7 @@ pub fn exec_one(kind: KindId, env: &mut Env, hist: &[SOp], term: Term) {
             run_history(env, it, hist, term);
             end_checks(env, false);
         }
+        RangeX => unreachable!(),
         Iter24 => {
             let src: std::vec::Vec<Elem<2>> = mk(len);
             let p = Probe::new(src, Hint::Exact, false);
